@@ -868,6 +868,45 @@ Proof.
     cbn [self_env] in Hs. exact Hs.
 Qed.
 
+Lemma sim_EStr : forall n, P_expr (EStr n).
+Proof.
+  intros n o st r pend HI Hp He HR. exists []. split; [|constructor]. cbn [walk_expr ref_expr]. apply Step_refl.
+Qed.
+
+Lemma sim_ETable : forall es, P_exprs es -> P_expr (ETable es).
+Proof.
+  intros es IHes o st r pend HI Hp He HR. cbn [walk_expr ref_expr len_expr] in *.
+  destruct (IHes (o + 1) st r pend) as (cs & Hs & Hc).
+  - eapply Inv_mono; [exact HI|lia].
+  - eapply pend_out_sub; [exact Hp|lia|lia].
+  - lia.
+  - exact HR.
+  - exists cs. split; [|exact Hc]. eapply Step_widen; [exact Hs|lia|lia].
+Qed.
+
+(** a receiver followed by an argument list at [ao]: [e:m(args)] *)
+Lemma sim_EMeth : forall e m args, P_expr e -> P_exprs args -> P_expr (EMeth e m args).
+Proof.
+  intros f m args IHf IHa o st r pend HI Hp He HR. cbn [walk_expr ref_expr len_expr] in *.
+  pose proof (nlen_pos m) as Hm.
+  destruct (IHf (o + paren f) st r pend) as (cs1 & Hs1 & Hc1).
+  - eapply Inv_mono; [exact HI|lia].
+  - eapply pend_out_sub; [exact Hp|lia|lia].
+  - lia.
+  - exact HR.
+  - set (ao := o + paren f + len_expr f + paren f + 1 + nlen m + 1).
+    destruct (chain st _ (o + paren f) (o + paren f + len_expr f) cs1 _ r pend ao
+                    ltac:(eapply Inv_mono; [exact HI|lia]) Hs1 Hc1 HR ltac:(lia) ltac:(unfold ao; lia))
+      as (HI1 & HR1 & Hte & _).
+    destruct (IHa ao _ r pend HI1) as (cs2 & Hs2 & Hc2).
+    + eapply pend_out_sub; [exact Hp|unfold ao; lia|unfold ao; lia].
+    + rewrite Hte. unfold ao. lia.
+    + exact HR1.
+    + exists (cs1 ++ cs2). split; [|apply Forall_app; split; assumption].
+      eapply Step_widen; [eapply (Step_seq st _ _ (o + paren f) (o + paren f + len_expr f) ao); [exact Hs1|exact Hs2| | | ]| |];
+        unfold ao; lia.
+Qed.
+
 Lemma sim_ENil : P_exprs ENil.
 Proof.
   intros o st r pend HI Hp He HR. exists []. split; [|constructor]. cbn [walk_exprs ref_exprs]. apply Step_refl.
@@ -980,6 +1019,69 @@ Proof.
     + apply (Hfin _ (eo + len_exprs es) cs_e (ref_exprs r es eo)); [|exact Hce|unfold eo; lia].
       change (ref_exprs r es eo) with ([] ++ ref_exprs r es eo).
       eapply (Step_seq st1 st2 _ o (o + 6 + len_names xs) eo); [exact Hs12|exact Hs23|unfold eo; lia|unfold eo; lia|unfold eo; lia].
+Qed.
+
+Lemma sim_SLocalAttr : forall x cl es, P_exprs es -> P_stat (SLocalAttr x cl es).
+Proof.
+  intros x cl es IHes o st r pend HI Hp Hk He HR. pose proof (nlen_pos x) as Hx. set (xs := [x]).
+  assert (Hlx : len_names xs = nlen x) by (cbn [xs len_names]; lia).
+  pose proof (Inv_nonempty _ _ _ HI) as Hne.
+  set (L := len_stat (SLocalAttr x cl es)) in *.
+  set (ds := name_decls xs (o + 6)).
+  set (st1 := create_scope o (o + L) KLocalOrAssign st).
+  set (st2 := add_name_decls xs (o + 6) st1).
+  assert (HL : L = 6 + nlen x + 8 + match es with ENil => 0 | _ => 3 + len_exprs es end) by reflexivity.
+  assert (HI1 : Inv st1 o pend).
+  { apply (Inv_create st o o (o + L) KLocalOrAssign o pend HI); [lia|lia|exact He|cbn; discriminate|].
+    rewrite Hk. discriminate. }
+  assert (Hne1 : st_z st1 <> []) by (cbn; discriminate).
+  assert (Hs12 : Step st1 st2 o (o + 6 + len_names xs) (map NDecl ds) []).
+  { apply Step_add_name_decls; [exact Hne1|lia|lia]. }
+  assert (Hz2 : st_z st2 = mkFrame KLocalOrAssign o (o + L) (map NDecl ds) :: st_z st).
+  { rewrite (step_z _ _ _ _ _ _ Hs12). reflexivity. }
+  assert (HR2 : R (st_z st2) r).
+  { rewrite Hz2. apply (R_same (st_z st)); [exact HR|].
+    cbn [vis_entry f_kind]. apply vis_push_in_block; assumption. }
+  (* the result for any step of the value expressions *)
+  assert (Hfin : forall st3 e3 cs_e Le,
+             Step st1 st3 o e3 (map NDecl ds ++ cs_e) Le -> Forall closure_node cs_e -> e3 <= o + L ->
+             exists cs, Step st (pop_scope st3) o (o + L) cs Le /\ R (add_children (st_z st) cs) (bind_names xs (o + 6) r)).
+  { intros st3 e3 cs_e Le Hs13 Hce He3.
+    exists [NScope KLocalOrAssign o (o + L) (map NDecl ds ++ cs_e)]. split.
+    - apply (Step_scope st st3 KLocalOrAssign o (o + L) o e3); [exact Hne|exact Hs13|lia|lia|exact He3].
+    - rewrite bind_names_env. apply (R_extend (st_z st)); [exact HR|apply Forall_rev, name_decls_local|].
+      rewrite vis_add_normal by assumption. f_equal. rewrite all_contrib_one.
+      cbn [contrib visit_child_scope node_kind node_children].
+      rewrite decls_of_app, decls_of_decls, (decls_of_closures cs_e Hce), app_nil_r. reflexivity. }
+  cbn [walk_stat ref_stat fst snd]. fold L. fold xs. fold st1. fold st2.
+  destruct es as [|e1 es1].
+  - cbn [walk_exprs ref_exprs].
+    apply (Hfin st2 (o + 6 + len_names xs) [] []); [rewrite app_nil_r; exact Hs12|constructor|lia].
+  - remember (ECons e1 es1) as es eqn:Ees.
+    assert (HL' : L = 6 + nlen x + 8 + 3 + len_exprs es) by (rewrite HL; subst es; lia).
+    set (eo := o + 6 + nlen x + 8 + 3).
+    assert (HI2 : Inv st2 eo pend).
+    { apply (Inv_step st1 st2 o (o + 6 + len_names xs) eo (map NDecl ds) [] pend HI1 Hs12); [lia|unfold eo; lia|].
+      cbn. discriminate. }
+    destruct (IHes eo st2 r pend HI2) as (cs_e & Hs23 & Hce).
+    + eapply pend_out_sub; [exact Hp|unfold eo; lia|unfold eo; fold L; lia].
+    + rewrite Hz2. cbn [top_end f_end]. unfold eo. lia.
+    + exact HR2.
+    + apply (Hfin _ (eo + len_exprs es) cs_e (ref_exprs r es eo)); [|exact Hce|unfold eo; lia].
+      change (ref_exprs r es eo) with ([] ++ ref_exprs r es eo).
+      eapply (Step_seq st1 st2 _ o (o + 6 + len_names xs) eo); [exact Hs12|exact Hs23|unfold eo; lia|unfold eo; lia|unfold eo; lia].
+Qed.
+
+Lemma sim_SLabel : forall l, P_stat (SLabel l).
+Proof.
+  intros l o st r pend HI Hp Hk He HR. exists []. cbn [walk_stat ref_stat fst snd]. split; [apply Step_refl|].
+  rewrite add_children_nil. exact HR.
+Qed.
+
+Lemma sim_SGoto : forall l, P_stat (SGoto l).
+Proof.
+  intros l o st r pend HI Hp Hk He HR. exists []. cbn [walk_stat ref_stat fst snd]. split; [apply Step_refl|].
+  rewrite add_children_nil. exact HR.
 Qed.
 
 Lemma sim_SLocalFun : forall f ps b, P_block b -> P_stat (SLocalFun f ps b).
@@ -1632,7 +1734,7 @@ Proof.
              Forall (fun m => d_pos m = o /\ d_kind m = DGlobal /\ lookup (d_name m) r = None) ms /\
              Forall (fun rf => fst rf = o) rs /\ ms = [] /\ rs = []).
   { intros st0 ->. exists (@nil decl). exists (@nil (N * decl)). cbn [map]. rewrite add_children_nil, !app_nil_r. repeat split; constructor. }
-  destruct v as [n|x|e1 f1|f1 args|a1 b1|ps1 b1]; cbn [var_step];
+  destruct v as [n|x|e1 f1|f1 args|a1 b1|ps1 b1|n2|es2|e2 m2 args2]; cbn [var_step];
     try solve [destruct (Hnone st eq_refl) as (ms & rs & H1 & H2 & H3 & H4 & H5 & H6 & H7); exists ms, rs;
                split; [exact H1|]; split; [exact H2|]; split; [exact H3|]; split; [exact H4|]; split; [exact H5|];
                split; [intros ? E; discriminate|right; split; assumption]].
@@ -1695,7 +1797,7 @@ Proof.
                Forall (fun rf => fst rf = o) rs1 /\
                (forall x, v = EName x -> tgt_ok st1 r (o, x)) /\
                ((exists x, v = EName x) \/ (ms1 = [] /\ rs1 = []))).
-    { destruct v as [n|x|e1 f1|f1 args|a1 b1|ps1 b1];
+    { destruct v as [n|x|e1 f1|f1 args|a1 b1|ps1 b1|n2|es2|e2 m2 args2];
         try (exists (@nil decl); exists (@nil (N * decl)); unfold st1; cbn [var_step map];
              rewrite add_children_nil, !app_nil_r;
              split; [reflexivity|]; split; [reflexivity|]; split; [reflexivity|]; split; [constructor|];
@@ -1748,7 +1850,7 @@ Proof.
         -- eapply Forall_impl; [|exact Hin1r]. cbv beta. intros rf Hin. apply in_or_app. left. exact Hin.
         -- eapply Forall_impl; [|exact Hrf2]. cbv beta. intros rf Hin. apply in_or_app. right. exact Hin.
       * apply Forall_app. split; [|exact Htg2]. unfold hd.
-        destruct v as [n|x|e1 f1|f1 args|a1 b1|ps1 b1]; try constructor; [|constructor].
+        destruct v as [n|x|e1 f1|f1 args|a1 b1|ps1 b1|n2|es2|e2 m2 args2]; try constructor; [|constructor].
         apply (tgt_ok_stable st1 _ r (o, x) ms2 rs2 (Htg1 x eq_refl) Hd2); [|exact Hr2|].
         -- eapply Forall_impl; [|exact Hm2]. cbv beta. intros m (Hin & _). cbn [fst]. apply Hin2. exact Hin.
         -- eapply Forall_impl; [|exact Hrf2]. cbv beta. intros rf Hin. cbn [fst]. apply Hin2. exact Hin.
@@ -1787,7 +1889,7 @@ Proof.
             apply in_map_iff in Hq; destruct Hq as (px & <- & Hpx);
             pose proof (targets_bounds rest o') as Hb; rewrite Forall_forall in Hb; destruct (Hb px Hpx) as (Hb1 & _);
             unfold o' in Hb1; lia. }
-      destruct v as [n|x|e1 f1|f1 args|a1 b1|ps1 b1]; try (apply Hother; intros x0 E; discriminate).
+      destruct v as [n|x|e1 f1|f1 args|a1 b1|ps1 b1|n2|es2|e2 m2 args2]; try (apply Hother; intros x0 E; discriminate).
       inversion Htg1 as [|? ? Hok _]; subst. pose proof (nlen_pos x) as Hx. cbn [walk_expr ref_expr len_expr].
       exists []. split; [|constructor].
       destruct Hok as [(Hg & d & Hl & Hc) | (m & Hg & Hkm & Hl & Hn)]; cbn [fst snd] in *.
@@ -1979,6 +2081,9 @@ Proof.
   - intros f IHf args (IHa & _). apply sim_ECall; assumption.
   - intros a IHa b IHb. apply sim_EBin; assumption.
   - intros ps b IHb. apply sim_EFun. exact IHb.
+  - exact sim_EStr.
+  - intros es (IHes & _). apply sim_ETable. exact IHes.
+  - intros e IHe m args (IHa & _). apply sim_EMeth; assumption.
   - split; [exact sim_ENil|exact I].
   - intros e IHe es (IHes & Hall). split; [apply sim_ECons; assumption|split; assumption].
   - intros xs es (IHes & _). apply sim_SLocal. exact IHes.
@@ -1992,6 +2097,9 @@ Proof.
   - intros c IHc b IHb els IHe. apply sim_SIf; assumption.
   - intros x es (IHes & _) b IHb. apply sim_SFor; assumption.
   - intros xs es (IHes & _) b IHb. apply sim_SForIn; assumption.
+  - exact sim_SLabel.
+  - exact sim_SGoto.
+  - intros x cl es (IHes & _). apply sim_SLocalAttr. exact IHes.
   - exact sim_ElEnd.
   - intros b IHb. apply sim_ElElse. exact IHb.
   - intros c IHc b IHb t IHt. apply sim_ElIf; assumption.
